@@ -449,12 +449,65 @@ pub fn shrink_records(b: &[u8], hdr: usize) -> Vec<Vec<u8>> {
     out
 }
 
+/// Deliveries larger than 64 KiB in the shapes where a 16-bit intermediate
+/// would wrap: a valid control message followed by 64 KiB or more of other
+/// octets in the same buffer; a data message with L and O whose offset
+/// padding alone approaches 64 KiB. `None`: use the caller's own variant.
+pub fn beyond_64k(rng: &mut Rng, sw: &Swarm) -> Option<Vec<u8>> {
+    match rng.below(3) {
+        0 => {
+            let m = gen_control(rng, sw, 300);
+            let mut b = spec_encode(&m);
+            let n = *rng.pick(&[65_524usize, 65_535, 65_536, 65_540, 70_000, 131_072]);
+            let fill = if rng.bool() { vec![0u8; n] } else { rng.bytes(n) };
+            b.extend_from_slice(&fill);
+            Some(b)
+        }
+        1 => {
+            let has_s = rng.bool();
+            let off = *rng.pick(&[65_519u16, 65_520, 65_521, 65_525, 65_526, 65_530, 65_535]);
+            let payload = rng.urange(1, 12);
+            let hdr = data_header_len(true, has_s, true);
+            let true_total = hdr + off as usize + payload;
+            let length = match rng.below(4) {
+                0 => (true_total & 0xFFFF) as u16,
+                1 => rng.range(0, 40) as u16,
+                2 => (hdr + payload) as u16,
+                _ => rng.u16(),
+            };
+            let mut data = vec![0xAAu8; off as usize];
+            data.extend_from_slice(&rng.bytes(payload));
+            let m = SpecMessage::Data {
+                prio: rng.bool(),
+                length: Some(length),
+                tunnel_id: rng.u16(),
+                session_id: rng.u16(),
+                ns_nr: if has_s { Some((rng.u16(), rng.u16())) } else { None },
+                offset: Some(off),
+                data,
+            };
+            let mut b = spec_encode(&m);
+            if rng.bool() {
+                let extra = rng.urange(0, 16);
+                b.extend_from_slice(&rng.bytes(extra));
+            }
+            Some(b)
+        }
+        _ => None,
+    }
+}
+
 /// Traffic of one run for the two-receiver comparison.
 fn traffic(rng: &mut Rng, sw: &Swarm, primary: Opts, obs: &mut Obs) -> Vec<Vec<u8>> {
     let mut out = Vec::new();
     let n = rng.urange(4, 10);
     for _ in 0..n {
-        if rng.chance(1, 400) {
+        if rng.chance(1, 300) {
+            if let Some(b) = beyond_64k(rng, sw) {
+                obs.count("probe:input-beyond-64k");
+                out.push(b);
+                continue;
+            }
             let dl = *rng.pick(&[65_530usize, 65_536, 65_541, 70_000]);
             let has_o = rng.bool();
             let m = SpecMessage::Data {
@@ -807,6 +860,29 @@ impl Scenario for C10 {
         let mut wl = rng.fork("workload");
         let opts = Opts::from_index(wl.below(8) as u8);
         let mut msgs = Vec::new();
+        if ctx.run % 512 == 5 {
+            // a relay input whose canonical re-encoding is exactly 65535 octets
+            let mut avps = vec![SpecAvp { attr: 0, val: Val::Code(1) }];
+            let mut total = 12 + 8;
+            while total + 1023 + 7 <= 65535 {
+                avps.push(SpecAvp { attr: 7, val: Val::Bytes(wl.bytes(1017)) });
+                total += 1023;
+            }
+            let rest = 65535 - total;
+            if rest >= 7 {
+                avps.push(SpecAvp { attr: 11, val: Val::Bytes(wl.bytes(rest - 6)) });
+            }
+            let m = SpecMessage::Control { length: 0, tunnel_id: wl.u16(), session_id: wl.u16(), ns: wl.u16(), nr: wl.u16(), avps };
+            // non-canonical only in ways that do not change the size
+            let mut tape = vec![0u8; 3];
+            for _ in 0..70 {
+                tape.push(wl.u8() & 0x3D); // M clear / reserved AVP flag bits
+                tape.push(0); // no surplus
+            }
+            let mut k = Knobs::new(&tape);
+            msgs.push(spec_encode_with(&m, &mut k, opts));
+            ctx.obs.count("probe:relay-input-65535");
+        }
         for _ in 0..wl.urange(4, 10) {
             let mut b = if wl.chance(3, 4) {
                 let lim = *wl.pick(&[64usize, 200, 800, 2500]);
